@@ -1,5 +1,6 @@
 /- Driver/CalCfg — C12 model driver: `calcfg chan cmd auth dtype dsize rs...` with rs items ch:flag -/
 import SuplaVerif.Model.CalCfg
+import SuplaVerif.Model.CfgButton
 import SuplaVerif.Gen.Consts
 import Driver.Common
 namespace Driver.CalCfgDrv
@@ -10,15 +11,54 @@ def parseRs (s : String) : Option RsChan :=
   | [c, f] => c.toNat?.map (fun n => { channel := n, recalFlag := f == "1" })
   | _ => none
 
-def step (_ : Unit) (toks : List String) : Unit × List String :=
+/-- the configuration button: `cbcfg typ onHold onToggle`, then `cbspan <t_end> [<ns>@<t> ...]` with the recognised state
+    changes of an interval; the 20 ms callbacks are generated here -/
+structure Cb where
+  c : CbCfg := { typ := 2, onHold := true, onToggle := false, pressUs := Gen.cfgBtnPressTimeMs * 1000, count := Gen.cfgBtnPressCount,
+                 windowUs := 2000000 }
+  s : CbSt := {}
+  nextTick : Nat := 0
+  started : Bool := false
+
+partial def cbTicks (b : Cb) (t : Nat) (incl : Bool) : Cb :=
+  if b.started || !b.s.armed then b
+  else if b.nextTick < t || (incl && b.nextTick == t) then
+    let r := cbTick b.c b.s b.nextTick
+    cbTicks { b with s := r.1, nextTick := b.nextTick + 20000, started := r.2 } t incl
+  else b
+
+def cbApply (b : Cb) (tok : String) : Cb :=
+  match tok.splitOn "@" with
+  | [a, ts] =>
+    match ts.toNat? with
+    | some t =>
+      let b1 := cbTicks b t false
+      if b1.started then b1
+      else
+        let r := cbChange b1.c b1.s (a == "1") t
+        { b1 with s := r.1, nextTick := t + 20000, started := r.2 }
+    | none => b
+  | _ => b
+
+def step (b : Cb) (toks : List String) : Cb × List String :=
   match toks with
+  | ["cbcfg", typ, oh, ot] =>
+    ({ c := { typ := typ.toNat?.getD 2, onHold := oh == "1", onToggle := ot == "1", pressUs := Gen.cfgBtnPressTimeMs * 1000,
+              count := Gen.cfgBtnPressCount, windowUs := 2000000 } }, [])
+  | "cbspan" :: tend :: evs =>
+    match tend.toNat? with
+    | none => (b, ["BADOP"])
+    | some te =>
+      let was := b.started
+      let b1 := cbTicks (evs.foldl cbApply b) te true
+      (b1, if b1.started && !was then ["CB cfgmode"] else [])
   | "calcfg" :: ch :: cmd :: auth :: dt :: ds :: rs =>
     match ch.toInt?, cmd.toInt?, auth.toNat?, dt.toInt?, ds.toNat?, rs.mapM parseRs with
     | some c, some cm, some a, some d, some n, some l =>
       let o := calcfg Gen.calConsts { channel := c, command := cm, auth := a, dataType := d, dataSize := n } l
-      ((), [s!"RESULT {o.result} CFGMODE {if o.enterCfg then 1 else 0} RECAL {o.recalibrated}"])
-    | _, _, _, _, _, _ => ((), ["BADOP"])
-  | _ => ((), [])
+      (b, [s!"RESULT {o.result} CFGMODE {if o.enterCfg then 1 else 0} RECAL {o.recalibrated}"])
+    | _, _, _, _, _, _ => (b, ["BADOP"])
+  | _ => (b, [])
 
-def main : IO Unit := do loop (← IO.getStdin) () step
+def main : IO Unit := do loop (← IO.getStdin) {} step
 end Driver.CalCfgDrv
